@@ -417,13 +417,13 @@ def check(pid, tier, seed, replay=None, only_law=None, scale=1.0):
 
     # ---- 2. regression tier: committed replay files (each must pass, or be skipped as known)
     replayed = 0
-    for rp in sorted(glob.glob(os.path.join(VERIF, "replays", pid, "*.case"))):
-        if any(os.path.join(VERIF, k.get("reproducer", "")) == rp for k in known if k.get("status") == "known"):
-            continue
-        verdict, out = run_replay(exe, rp, active)
-        replayed += 1
-        if verdict in ("fail", "died"):
-            violations.append(("replay", rp, out.strip().splitlines()[-1] if out.strip() else verdict))
+    rps = [rp for rp in sorted(glob.glob(os.path.join(VERIF, "replays", pid, "*.case")))
+           if not any(os.path.join(VERIF, k.get("reproducer", "")) == rp for k in known if k.get("status") == "known")]
+    with cf.ThreadPoolExecutor(NCPU) as ex:      # in parallel: on a tree where many of them hang each one costs its law's watchdog
+        for rp, (verdict, out) in zip(rps, ex.map(lambda r: run_replay(exe, r, active), rps)):
+            replayed += 1
+            if verdict in ("fail", "died"):
+                violations.append(("replay", rp, out.strip().splitlines()[-1] if out.strip() else verdict))
 
     # ---- 3. generation
     tmp = tempfile.mkdtemp(prefix="run-%s-" % pid, dir=os.path.join(CACHE))
@@ -520,15 +520,18 @@ def check(pid, tier, seed, replay=None, only_law=None, scale=1.0):
             if r["law"] in crashed_laws:
                 continue        # one minimised crash per law is enough (fork-mode minimisation is expensive)
             crashed_laws.add(r["law"])
+            hang_laws = [v for v in violations if v[2].startswith("hang")]   # after a first confirmed hang the others are minimised only briefly
             senv = env_for()
             senv["ASAN_OPTIONS"] = ASAN_ENV.replace("symbolize=1", "symbolize=0")
+            senv["VF_SHRINK_HANG"] = "4"
             try:
-                subprocess.run([exe, "--shrink", src, "--out", small] + (["--known", ",".join(active)] if active else []), env=senv, capture_output=True, timeout=900)
+                subprocess.run([exe, "--shrink", src, "--out", small] + (["--known", ",".join(active)] if active else []), env=senv, capture_output=True, timeout=(60 if hang_laws else 150) if is_hang else 900)
             except subprocess.TimeoutExpired:
                 pass
             use = small if os.path.exists(small) and os.path.getsize(small) > 0 else src
             rp = save_replay(pid, use, r["law"] + ("-hang" if is_hang else "-crash"))
-            oks = [run_replay(exe, rp, active, timeout=lawinfo["hang_s"] * 10 + 120)[0] for _ in range(3)]
+            with cf.ThreadPoolExecutor(3) as ex3:
+                oks = [v[0] for v in ex3.map(lambda _: run_replay(exe, rp, active, timeout=lawinfo["hang_s"] * 3 + 90), range(3))]
             if all(o in ("fail", "died") for o in oks):
                 if is_hang and not lawinfo["hang_is_violation"]:
                     machinery_errors.append("INCONCLUSIVE hang in law %s (termination is not part of this law): %s" % (r["law"], rp))
@@ -538,7 +541,8 @@ def check(pid, tier, seed, replay=None, only_law=None, scale=1.0):
             else:
                 # retry with the unminimised dump
                 rp2 = save_replay(pid, src, r["law"] + "-crashraw")
-                oks2 = [run_replay(exe, rp2, active, timeout=lawinfo["hang_s"] * 10 + 120)[0] for _ in range(3)]
+                with cf.ThreadPoolExecutor(3) as ex3:
+                    oks2 = [v[0] for v in ex3.map(lambda _: run_replay(exe, rp2, active, timeout=lawinfo["hang_s"] * 3 + 90), range(3))]
                 if all(o in ("fail", "died") for o in oks2):
                     violations.append((r["law"], rp2, "crash / sanitizer report (unminimised)"))
                 else:
@@ -581,7 +585,7 @@ def check(pid, tier, seed, replay=None, only_law=None, scale=1.0):
                     machinery_errors.append("coverage-guided job for %s exited %s: %s" % (r["law"], r["rc"], tail(r["log"], 6).replace("\n", " | ")[-300:]))
                 if cand:
                     lawinfo = next(l for l in laws if l["name"] == r["law"])
-                    oks = [run_replay(exe, cand, active, timeout=lawinfo["hang_s"] * 10 + 120)[0] for _ in range(3)]
+                    oks = [run_replay(exe, cand, active, timeout=lawinfo["hang_s"] * 3 + 90)[0] for _ in range(3)]
                     if all(o in ("fail", "died") for o in oks):
                         msg = [ln[8:] for ln in open(cand).read().splitlines() if ln.startswith("# fail: ")]
                         violations.append((r["law"], cand, "(coverage-guided) " + " ".join(msg)[:500]))
